@@ -43,7 +43,7 @@ def check_mask_pred(case, ev):
     return None
 
 
-def _expected_token(tok_int, spelled, cfg, fresh):
+def _expected_token(tok_int, spelled, cfg, fresh, undo=False):
     """Expected output text of one IPv4 token."""
     if G.is_mask(tok_int):
         return spelled, "mask"
@@ -53,7 +53,7 @@ def _expected_token(tok_int, spelled, cfg, fresh):
     suffix = ""
     if "/" in spelled:
         suffix = spelled[spelled.index("/") :]
-    return G.v4_canon(fresh.anonymize(tok_int)) + suffix, "anonymized"
+    return G.v4_canon(fresh.deanonymize(tok_int) if undo else fresh.anonymize(tok_int)) + suffix, "anonymized"
 
 
 def check_text(case, ev):
@@ -66,7 +66,7 @@ def check_text(case, ev):
     want = seps[0]
     kinds = []
     for (n, sp), sep in zip(toks, seps[1:]):
-        e, kind = _expected_token(n, sp, cfg, fresh)
+        e, kind = _expected_token(n, sp, cfg, fresh, bool(case.get("undo")))
         kinds.append(kind)
         line += sp + sep
         want += e + sep
@@ -85,9 +85,9 @@ def check_text(case, ev):
         an, exc = guarded(G.mk4, cfg)
         if exc is not None:
             return core.exc_finding(exc, case, "ctor/")
-        got, exc = guarded(anonymize_ip_addr, an, line)
+        got, exc = guarded(anonymize_ip_addr, an, line, bool(case.get("undo")))
     else:
-        fa, exc = guarded(G.file_anonymizer, cfg)
+        fa, exc = guarded(G.file_anonymizer, cfg, bool(case.get("undo")))
         if exc is not None:
             return core.exc_finding(exc, case, "ctor/")
         got, exc = guarded(core.run_io, fa, line + "\n")
@@ -96,7 +96,7 @@ def check_text(case, ev):
     if exc is not None:
         return core.exc_finding(exc, case, "text/")
     nt = "preserved" in kinds or any(k == "anonymized" and G.is_mask(n ^ (1 << b)) for (n, _), k in zip(toks, kinds) for b in (0, 7, 8, 15, 16, 23, 24, 31))
-    ev.case(case, nt, ["via-" + case["via"]] + (["after-other-anonymizer"] if case.get("prelude") else []) + kinds + (["spelled-noncanonical"] if any(sp.split("/")[0] != G.v4_canon(n) for n, sp in toks) else []))
+    ev.case(case, nt, ["via-" + case["via"]] + (["undo-direction"] if case.get("undo") else []) + (["after-other-anonymizer"] if case.get("prelude") else []) + kinds + (["spelled-noncanonical"] if any(sp.split("/")[0] != G.v4_canon(n) for n, sp in toks) else []))
     if got != want:
         # which token class went wrong (first difference)
         gp = got.split()
@@ -106,7 +106,7 @@ def check_text(case, ev):
             for g, w in zip(gp, wp):
                 if g != w:
                     for (n, sp), k in zip(toks, kinds):
-                        if sp in w or (k == "anonymized" and w.startswith(G.v4_canon(fresh.anonymize(n)))):
+                        if sp in w or (k == "anonymized" and w.startswith(G.v4_canon(fresh.deanonymize(n) if case.get("undo") else fresh.anonymize(n)))):
                             kind = k
                             break
                     break
@@ -193,7 +193,7 @@ def _text_case(draw):
     for i in range(len(toks)):
         seps.append(draw(_SEPS) if i < len(toks) - 1 else draw(st.sampled_from(["", " ", " log", ";"])))
     prelude = draw(G.config()) if draw(st.integers(0, 2)) == 0 else None
-    return {"cfg": cfg, "via": draw(st.sampled_from(["line", "io"])), "toks": toks, "seps": seps, "prelude": prelude}
+    return {"cfg": cfg, "via": draw(st.sampled_from(["line", "io"])), "toks": toks, "seps": seps, "prelude": prelude, "undo": draw(st.integers(0, 3)) == 0}
 
 
 @st.composite
